@@ -67,8 +67,10 @@ def verdicts(ctx, pm: ParserModel, max_len: int = 4) -> List[Verdict]:
             return Opaque()
         raise Unsupported(f"call {norm(call)[:60]}")
 
-    def step(stack: List[str], t: str) -> Optional[str]:
-        """None: continue; 'done'; 'mismatch'"""
+    def step(stack: List[str], t: str, tolerant: bool = False) -> Optional[str]:
+        """None: continue; 'done'; 'mismatch'.  tolerant: '<' and '>' may be operators - a closer that meets a pending
+        '>' expectation, or a '>' that meets another expectation, is matched with the innermost pending expectation of
+        its own kind (everything above it is given up), and ignored when there is none"""
         if t in tmap:
             stack.append(tmap[t])
             return None
@@ -78,6 +80,13 @@ def verdicts(ctx, pm: ParserModel, max_len: int = 4) -> List[Verdict]:
                 stack.pop()
             elif stack and stack[-1] == t:
                 stack.pop()
+            elif tolerant and stack and (t == ">" or stack[-1] == ">"):
+                for i in range(len(stack) - 2, -1, -1):
+                    if stack[i] == t:
+                        del stack[i:]
+                        break
+                else:
+                    return None
             else:
                 return "mismatch"
             return "done" if not stack else None
@@ -85,22 +94,26 @@ def verdicts(ctx, pm: ParserModel, max_len: int = 4) -> List[Verdict]:
 
     scripts: List[Tuple[Tuple[str, ...], Tuple[str, ...], str]] = []
 
-    def gen(init: Tuple[str, ...], alpha: List[str], only_complete: bool) -> None:
-        def rec(prefix: List[str], stack: List[str]) -> None:
+    def gen(init: Tuple[str, ...], alpha: List[str], only_complete: bool, tolerant: bool = False) -> None:
+        def rec(prefix: List[str], stack: List[str], strict: List[str], lenient: bool) -> None:
             if len(prefix) >= max_len:
                 return
             for t in alpha:
                 st2 = list(stack)
-                r = step(st2, t)
+                r = step(st2, t, tolerant)
+                # does the strict machine agree so far?  (scripts on which it does are the plain families)
+                sx = list(strict)
+                len2 = lenient or (tolerant and (step(sx, t) == "mismatch" or sx != st2))
                 p2 = prefix + [t]
                 if r == "done":
-                    scripts.append((init, tuple(p2), "return"))
+                    if not tolerant or len2:
+                        scripts.append((init, tuple(p2), "tolerant-return" if tolerant else "return"))
                 elif r == "mismatch":
-                    if not only_complete:
-                        scripts.append((init, tuple(p2), "raise"))
+                    if not only_complete and (not tolerant or len2):
+                        scripts.append((init, tuple(p2), "tolerant-raise" if tolerant else "raise"))
                 else:
-                    rec(p2, st2)
-        rec([], [tmap[t] for t in init])
+                    rec(p2, st2, sx, len2)
+        rec([], [tmap[t] for t in init], [tmap[t] for t in init], False)
 
     for op in plain:
         gen((op,), alphabet, False)
@@ -109,6 +122,9 @@ def verdicts(ctx, pm: ParserModel, max_len: int = 4) -> List[Verdict]:
         # '<' '>' only where they nest properly (no tolerated mismatch is judged)
         gen(("<",), ["<", ">", "(", ")", "x"], True)
         gen(("(",), ["<", ">", "(", ")", "x"], True)
+        # the tolerance for '<' '>' used as operators: only scripts on which it comes into play
+        for op in ("(", "<", "["):
+            gen((op,), ["<", ">", "(", ")", "[", "]", "x"], False, True)
 
     out: List[Verdict] = []
     for init, script, expect in scripts:
@@ -126,7 +142,7 @@ def verdicts(ctx, pm: ParserModel, max_len: int = 4) -> List[Verdict]:
             continue
         except Unsupported as e:
             raise AnalysisError(f"{fname} uses a construct the interpreter does not model: {e}")
-        if expect == "return":
+        if expect.endswith("return"):
             if run.raised:
                 out.append(Verdict(init, script, expect, False, f"raises ({run.raised})"))
             elif run.pos != len(script):
@@ -169,6 +185,8 @@ def obligations(ctx, rid: str, pm: ParserModel, parts: Tuple[str, ...]) -> None:
         return False
 
     groups = {
+        "tolerant": ([v for v in vs if v.expect.startswith("tolerant")], "a tolerated '<' / '>' is matched with the innermost pending bracket of its kind",
+                     "where '<' or '>' is taken for an operator, the closer is matched with another pending opener than the innermost one of its kind (or not ignored / not rejected as before): the value or attribute argument ends at the wrong bracket"),
         "return": ([v for v in vs if v.expect == "return" and not fused(v)], "returns right after the balancing closer with every token kept",
                    "the value or attribute argument ends at the wrong token, or loses tokens"),
         "fused": ([v for v in vs if v.expect == "return" and fused(v)], "a ']]' token closes two pending '['",
